@@ -8,7 +8,7 @@ LEAN_TARGETS = ['Props.C20']
 REQUIRED_THEOREMS = ['Props.C20.fit_trace', 'Props.C20.steps_count', 'Props.C20.step_discipline_block',
                      'Props.C20.validation_pure', 'Props.C20.history_shape', 'Props.C20.accuracy_spec']
 RULE = ('grid epochs 0..3 x train batches 0..3 x validation (none, 0, 1, 2 batches) x both callbacks x evaluator '
-        '(off / 3 label modes) x initial training flag x initial grad mode, run on the real Trainer with a model holding '
+        '(off / 3 label modes) x initial training flag x initial grad mode x initial module tree consistent / with submodules switched on their own, run on the real Trainer with a model holding '
         'BatchNorm and Dropout, recording wrappers around model / optimizer / engine / Tensor.backward; quick samples the '
         'grid, thorough enumerates it. Non-trivial: at least one epoch and one batch. Plus accuracy cases in 3 modes.')
 EXHAUSTIVE = {'quick': False, 'thorough': True}
@@ -29,6 +29,11 @@ def cases(rng, tier):
                             for tr0 in (0, 1):
                                 for g0 in (0, 1):
                                     grid.append({'kind': 'fit', 'e': e, 'nt': nt, 'nv': nv, 'ct': ct, 'cv': cv, 'ev': ev, 'tr0': tr0, 'g0': g0})
+    # inconsistent initial module tree: some submodules were switched on their own before the model was handed to the
+    # Trainer (root flag tr0, marked children the opposite); train()/eval() must still reach every descendant
+    for c in list(grid):
+        if c['e'] >= 1 and (c['ct'], c['cv']) == (0, 0):
+            grid.append(dict(c, mix=1 + (c['nt'] + (c['nv'] or 0)) % 3))
     if tier == 'quick':
         must = [c for c in grid if c['e'] == 2 and c['nt'] == 2 and c['ct'] == 1 and c['cv'] == 1 and c['tr0'] == 0 and c['g0'] == 1]
         grid = must + rng.sample(grid, 220)
@@ -159,6 +164,10 @@ def _run_fit(c):
     setattr(tr, vname, val)
     model.training = bool(c['tr0'])
     for m in model.submodules(): m.training = bool(c['tr0'])
+    mix = c.get('mix', 0)
+    if mix:
+        for j in ([1, 2], [0, 3], [2])[mix - 1]:
+            model.submodules()[j].training = not bool(c['tr0'])
     g_before = tm.gradient__
     tm.gradient__ = bool(c['g0'])
     sg.Tensor.backward = bw
